@@ -128,6 +128,12 @@ def expand_c10(cfg):
         sec = make_open_section(chord, camh, rmax, rle, rte, cfg['nside'])
     else:
         sec = make_section(chord, camh, rmax, rle, rte, cfg['nside'])
+    if cfg.get('mirror'):
+        # the opposite hand: reflect in the chord line (the vertex order then runs the other way round)
+        for key in ('pts', 'camber'):
+            sec[key] = [[p[0], -p[1]] for p in sec[key]]
+        sec['le_true'] = [sec['le_true'][0], -sec['le_true'][1]]
+        sec['te_true'] = [sec['te_true'][0], -sec['te_true'][1]]
     import random
     rnd = random.Random(cfg['chord'] * 1000 + cfg['camber'] * 10 + cfg['nside'])
     n = len(sec['pts'])
@@ -135,7 +141,7 @@ def expand_c10(cfg):
            # requested forward direction for DirectionFwd: along the chord, or 79 degrees off it to either side (still pointing
            # towards the leading edge, but closer to the initial heading of a cambered camber line than to the chord)
            'orient': {'kind': 'dir' if cfg['open'] else cfg['orient'], 'd': ([-1, 0], [-1, 5], [-1, -5])[cfg.get('od', 0)]}, 'le': {'kind': cfg['le']}, 'te': {'kind': cfg['te']},
-           'face': {'kind': cfg['face'], 'd': [0, 1]},
+           'face': {'kind': cfg['face'], 'd': [0, 1]}, 'mirror': bool(cfg.get('mirror')),
            'variants': [{'T': IDENT, 'rev': False, 'shift': 0},
                         {'T': motion(rnd, chord), 'rev': False, 'shift': 0},
                         {'T': IDENT, 'rev': True, 'shift': 0},
@@ -159,7 +165,7 @@ def gen_c10_random(rnd, tier):
     for k in range(n):
         cfg = {'m': 'airfoil', 'op': 'config', 'chord': rnd.randint(0, 5), 'camber': rnd.choice([1, 3, 4, 6, 7]), 'thick': rnd.choice([5, 6, 7, 8]),
                'le': rnd.choice(methods), 'te': rnd.choice(methods), 'orient': rnd.choice(['tmax', 'dir']),
-               'face': rnd.choice(['upper', 'detect']), 'nside': rnd.choice([120, 240, 320]), 'open': False, 'od': rnd.randint(0, 2)}
+               'face': rnd.choice(['upper', 'detect']), 'nside': rnd.choice([120, 240, 320]), 'open': False, 'od': rnd.randint(0, 2), 'mirror': rnd.randint(0, 1)}
         out.append(expand_c10(cfg))
     return out
 
